@@ -25,14 +25,14 @@ Definition ex_w : world := run (world0 ["/etc/cdi"] ex_fs) ex_hist.
 Example ex_shortage :
   option_map watcher (cache ex_w) = Some None /\ option_map auto (cache ex_w) = Some true /\ fd_ok ex_w = true /\
   open ex_w = [] /\ gors ex_w = [] /\
-  snd (step ex_w Query) = OAnswer ["v/c=d0"; "v/c=d1"; "v/c=d2"] ["/b/bad.json"] ["/a"; "/b"].
+  snd (step ex_w Query) = OAnswer ["v/c=d0@/a/x.json"; "v/c=d1@/a/y.json"; "v/c=d2@/b/z.yaml"] ["/b/bad.json"] ["/a"; "/b"].
 Proof. vm_compute. repeat split; reflexivity. Qed.
 
 Example ex_disciplined : disciplined true ex_hist = true /\ cache ex_w <> None.
 Proof. vm_compute. split; [reflexivity|discriminate]. Qed.
 
 Example ex_observe :
-  observe ex_w = Some (["/b"; "/a"], true, ["/a"; "/b"], Some (["v/c=d0"; "v/c=d1"; "v/c=d2"], ["/b/bad.json"])) /\
+  observe ex_w = Some (["/b"; "/a"], true, ["/a"; "/b"], Some (["v/c=d0@/a/x.json"; "v/c=d1@/a/y.json"; "v/c=d2@/b/z.yaml"], ["/b/bad.json"])) /\
   applied false ex_hist = [WithSpecDirs ["/a/"; "/b"; "/missing"]; WithAutoRefresh false; WithAutoRefresh true; WithSpecDirs ["/a"]; WithSpecDirs ["/b/."; "/a"]].
 Proof. vm_compute. split; reflexivity. Qed.
 
@@ -48,17 +48,17 @@ Definition ex_w2 : world := run (world0 [] ex_fs) ex_hist2.
 Example ex_one_watcher :
   open ex_w2 = [3] /\ gors ex_w2 = [3] /\ next ex_w2 = 4 /\
   option_map tracked (cache ex_w2) = Some [("/a", true); ("/missing", false)] /\
-  option_map cached (cache ex_w2) = Some (["v/c=d0"], []) /\
-  snd (step ex_w2 Query) = OAnswer ["v/c=d0"; "v/c=m"] [] [] /\
+  option_map cached (cache ex_w2) = Some (["v/c=d0@/a/x.json"], []) /\
+  snd (step ex_w2 Query) = OAnswer ["v/c=d0@/a/x.json"; "v/c=m@/missing/m.json"] [] [] /\
   option_map cached (cache (fst (step (fst (step ex_w2 Query)) (FsOp (WriteFile "/a" "p.json" (Good ["v/c=probe"])))))) =
-    Some (["v/c=d0"; "v/c=m"; "v/c=probe"], []).
+    Some (["v/c=d0@/a/x.json"; "v/c=m@/missing/m.json"; "v/c=probe@/a/p.json"], []).
 Proof. vm_compute. repeat split; reflexivity. Qed.
 
 (* manual mode: nothing is held, a change is not seen until Refresh *)
 Example ex_manual :
   let w := run (world0 [] ex_fs) [New [WithSpecDirs ["/a"]]; Configure [WithAutoRefresh false]; FsOp (RemoveFile "/a" "x.json")] in
   open w = [] /\ gors w = [] /\ option_map watcher (cache w) = Some (Some 0) /\
-  snd (step w Query) = OAnswer ["v/c=d0"] [] [] /\ snd (step (fst (step w Refresh)) Query) = OAnswer [] [] [].
+  snd (step w Query) = OAnswer ["v/c=d0@/a/x.json"] [] [] /\ snd (step (fst (step w Refresh)) Query) = OAnswer [] [] [].
 Proof. vm_compute. repeat split; reflexivity. Qed.
 
 (* the default cache: used first, configured later — and the other way round *)
@@ -66,7 +66,7 @@ Example ex_default :
   let w1 := run (world0 ["/a"] ex_fs) [DefaultGet; DefaultConfigure [WithSpecDirs ["/b"]]; DefaultGet] in
   let w2 := run (world0 ["/a"] ex_fs) [DefaultConfigure [WithSpecDirs ["/b"]]] in
   observe w1 = observe w2 /\ observe w1 = Some (["/b"], true, ["/b"], Some ([], ["/b/bad.json"])) /\
-  observe (run (world0 ["/a"] ex_fs) [DefaultGet]) = Some (["/a"], true, ["/a"], Some (["v/c=d0"], [])).
+  observe (run (world0 ["/a"] ex_fs) [DefaultGet]) = Some (["/a"], true, ["/a"], Some (["v/c=d0@/a/x.json"], [])).
 Proof. vm_compute. repeat split; reflexivity. Qed.
 
 (* outside the shortage discipline the statement "observes like a new cache" is false of the faithful model: an event
